@@ -230,6 +230,13 @@ def run_c09(tier, seed):
             done = docs[0].replace('</mos>', '<mosromgrmeta><roDelete><roID>RO1</roID></roDelete></mosromgrmeta></mos>')
             for strict in (False, True):
                 jobs.append((h['seed'], [done] + docs[1:], True, strict, 'strings'))
+    # scripted collections: a multi-element message that fails at its k-th element, then valid messages of the same
+    # family, then the roDelete - "every subset/position of messages that fail to merge"
+    plans = hist_run._fault_then_valid_plans()
+    for pi, (name, ro_tree, plan) in enumerate(plans[::(5 if tier == 'quick' else 1)]):
+        docs = [TJ.to_text(ro_tree)] + [TJ.to_text(m) for _, m in plan] + [TJ.to_text(B.ro_delete(message_id='99'))]
+        for strict in (False, True):
+            jobs.append(('fault-then-valid: ' + name, docs, False, strict, 'strings' if pi % 5 else 'files'))
     reqs = [model_req(docs, allow, strict) for (_, docs, allow, strict, _) in jobs]
     models = model_collection(reqs)
     for (hseed, docs, allow, strict, via), m in zip(jobs, models):
